@@ -25,6 +25,18 @@ def margRender (r : Except MargErr (Arr XR)) (impl : String) (tag : String) : Ve
   | .error (.axisOutOfBounds ax d) => cmpStr impl s!"ERR oob {ax} {d}" "err-oob"
   | .error (.tooManyAxes n d) => cmpStr impl s!"ERR many {n} {d}" "err-many"
 
+def optNats (s : String) : Option (Option (List Nat)) :=
+  if s == "N" then some none else (parseNats (s.drop 1).toString).map some
+
+def viewErrRender : ViewErr → String
+  | .marg (.duplicateAxis ax) => s!"ERR marg-dup {ax}"
+  | .marg (.axisOutOfBounds ax _) => s!"ERR marg-oob {ax}"
+  | .marg (.tooManyAxes n _) => s!"ERR marg-many {n}"
+  | .proj (.invalidProjection d _ _) => s!"ERR proj-invalid {d}"
+  | .proj (.unequalDimensions _ _) => "ERR proj-dims"
+  | .proj .zero => "ERR proj-zero"
+  | .proj .empty => "ERR proj-empty"
+
 def handle (op : String) (a : List String) (impl : String) : Option Verdict :=
   match op, a with
   | "c19.get", [sh, ix] => do
@@ -70,6 +82,18 @@ def handle (op : String) (a : List String) (impl : String) : Option Verdict :=
   | "c04.step", [sh, bs, ax] => do
     let shape ← parseNats sh; let data ← parseBits bs; let axes ← parseNats ax
     pure (margRender (marginalize ⟨data, shape⟩ axes) impl s!"marg-stepwise-{axes.length}of{shape.length}")
+  | "c13.view", [sh, bs, rm, kp, ps, pi, mk, nm] | "c13.chain", [sh, bs, rm, kp, ps, pi, mk, nm] => do
+    let shape ← parseNats sh; let data ← parseBits bs
+    let rm ← optNats rm; let kp ← optNats kp; let ps ← optNats ps; let pi ← optNats pi
+    let o : ViewOpts := { remove := rm, keep := kp, projectShape := ps, projectIndividuals := pi, mask := mk == "1", normalize := nm == "1" }
+    let kind := (if op == "c13.chain" then "chain" else "view")
+    let optTag := s!"{kind}-m{if rm.isSome || kp.isSome then 1 else 0}p{if ps.isSome || pi.isSome then 1 else 0}k{mk}n{nm}"
+    match viewRun o (⟨data, shape⟩ : Arr XR) with
+    | .ok b =>
+      let floor : Rat := if o.normalize then 1 else sumAbs data
+      if impl.startsWith "OK " then pure (cmpArr (impl.drop 3).toString b.shape b.data (some floor) optTag)
+      else pure (.bad s!"OK {showNats b.shape}|{showXRs b.data}")
+    | .error e => pure (cmpStr impl (viewErrRender e) s!"{kind}-error")
   | _, _ => none
 
 def processLine (line : String) : String :=
